@@ -358,6 +358,40 @@ fn apply_calls<S: ConditionalStatement>(s: &mut S, calls: &[Call]) {
     }
 }
 
+/// In the legacy chain route every member carries its own connective (the first member's is not written);
+/// the chain means what SQL makes of `m1 c2 m2 c3 m3 ..` with each member kept together: AND binds tighter
+/// than OR. Which members are joined with OR is a fixed function of the member.
+fn chain_joins_with_or(atom: usize, form: usize) -> bool {
+    (atom * 7 + form) % 5 == 0
+}
+
+fn model_chain(calls: &[Call], row: &[Option<bool>; 4]) -> V3 {
+    let mut groups: Vec<V3> = vec![];
+    let mut cur: Option<V3> = None;
+    for c in calls {
+        let (a, f) = match c {
+            Call::AndWhere(a, f) | Call::AndWhereOption(Some((a, f))) => (*a, *f),
+            _ => continue,
+        };
+        let v = leaf_val(f, row[a]);
+        match cur {
+            None => cur = Some(v),
+            Some(acc) if chain_joins_with_or(a, f) => {
+                groups.push(acc);
+                cur = Some(v);
+            }
+            Some(acc) => cur = Some(and3(acc, v)),
+        }
+    }
+    match cur {
+        None => T,
+        Some(last) => {
+            groups.push(last);
+            groups.into_iter().fold(F, or3)
+        }
+    }
+}
+
 fn model_calls(calls: &[Call], row: &[Option<bool>; 4]) -> V3 {
     let mut acc = T;
     for c in calls {
@@ -411,7 +445,15 @@ fn run_ctx(fx: &Fix, cx: Ctxt, calls: &[Call], inline: bool) -> Result<(String, 
                     Call::AndWhere(a, f) | Call::AndWhereOption(Some((a, f))) => leaf_expr(*a, *f),
                     _ => continue,
                 };
-                s.and_or_where(LogicalChainOper::And(e));
+                let (at, fm) = match c {
+                    Call::AndWhere(a, f) | Call::AndWhereOption(Some((a, f))) => (*a, *f),
+                    _ => unreachable!(),
+                };
+                if chain_joins_with_or(at, fm) {
+                    s.and_or_where(LogicalChainOper::Or(e));
+                } else {
+                    s.and_or_where(LogicalChainOper::And(e));
+                }
             }
             let (sql, v) = render(&s);
             Ok((sql.clone(), ids(exec(&sql, &v)?)))
@@ -561,8 +603,9 @@ pub fn check_case(ctx: &Ctx, rep: &mut Report, fx: &Fix, n: u64, cx: Ctxt, calls
     } else {
         calls.to_vec()
     };
-    let want_t: Vec<i64> = (0..81).filter(|i| model_calls(&calls_eff, &fx.rows[*i as usize]) == T).collect();
-    let null_rows = (0..81).filter(|i| model_calls(&calls_eff, &fx.rows[*i]) == N).count();
+    let model = |row: &[Option<bool>; 4]| if cx == Ctxt::AndChain { model_chain(&calls_eff, row) } else { model_calls(&calls_eff, row) };
+    let want_t: Vec<i64> = (0..81).filter(|i| model(&fx.rows[*i as usize]) == T).collect();
+    let null_rows = (0..81).filter(|i| model(&fx.rows[*i]) == N).count();
     let hist = || {
         calls_eff
             .iter()
